@@ -36,6 +36,7 @@ BUDGET_S = {"quick": 25, "thorough": 120}      # per exported model, all targets
 BIG_MODEL_BYTES = 16 << 20
 MAX_RUNTIME_BYTES = 400 << 20                  # larger exports are only checked statically
 MAX_TERM_CHARS = 6_000_000
+PER_FILE_MODELS = 12
 CORPUS_DEADLINE_S = {"quick": 120, "thorough": 500}
 HARD_DEADLINE_FACTOR = {"quick": 3.0, "thorough": 2.0}                     # on a heavily loaded machine the corpus may take this much longer
 GEN_UNITS = ["GenShapes"]
@@ -678,6 +679,7 @@ def _worker(job):
     """job = (kind, ident, overrides, tier, seed) -> result dict (picklable)"""
     kind, ident, over, tier, seed = job[:5]
     keep_model = len(job) > 5 and job[5]
+    static_only = len(job) > 6 and job[6]
     os.environ.setdefault("JAX_PLATFORMS", "cpu")
     import exports
     res = {"key": None, "error": None, "model": None, "post": None, "val": None, "term": None}
@@ -733,7 +735,9 @@ def _worker(job):
         res["term_error"] = repr(e)[:200]
     del m
     try:
-        if len(blob) > MAX_RUNTIME_BYTES:
+        if static_only:
+            res["val"] = None
+        elif len(blob) > MAX_RUNTIME_BYTES:
             res["val"] = {"skipped": f"model of {len(blob) >> 20} MiB not executed"}
         else:
             res["val"] = validate_model(blob, res["key"], tier, seed)
@@ -762,7 +766,8 @@ def _init_worker():
         pass
 
 
-def run_corpus(n_registry, seed, tier, overrides=None, procs=None, extras=True, own=True, indices=None, deadline_s=None):
+def run_corpus(n_registry, seed, tier, overrides=None, procs=None, extras=True, own=True, indices=None, deadline_s=None,
+               static_only=False):
     """exports + snapshots + run-time validation in SPAWNED workers; jobs that are not finished at the deadline are
     reported as such (never judged)"""
     from multiprocessing import get_context
@@ -785,6 +790,8 @@ def run_corpus(n_registry, seed, tier, overrides=None, procs=None, extras=True, 
         if extras:
             jobs += [("extra", n, overrides, tier, seed) for n in exports.extra_names()]
         jobs += [("reg", i, overrides, tier, seed) for i in idx]
+        if static_only:
+            jobs = [j + (False, True) for j in jobs]
         t0 = time.time()
         pending = [(j, pool.apply_async(_worker, (j,))) for j in jobs]
         hard = deadline_s * HARD_DEADLINE_FACTOR.get(tier, 2.0)
@@ -1016,9 +1023,25 @@ def tie_refresh(ctx, skip):
         cases.append(("Relu", [a], (5,)))
     items, exp, scal_bad = [], [], []
     n_false = 0
+    n_sem = 0
+    false_known, false_other = [], []
     for op, operands, out in cases:
         r, scal = real_refresh(op, operands, out)
         exp.append(r)
+        # the property on the REAL function, without any model: all operand shapes concrete -> numpy's broadcast is the truth
+        if r is not None and all(s is not None and all(isinstance(d, int) for d in s) for _k, s in operands) \
+                and all(isinstance(d, int) for d in r):
+            try:
+                truth = tuple(np.broadcast_shapes(*[tuple(s) for _k, s in operands]))
+            except ValueError:
+                truth = None
+            if truth is not None and (op != "Clip" or all(len(s) == 0 for _k, s in operands[1:])):
+                n_sem += 1
+                if tuple(r) != truth:
+                    n_false += 1
+                    kept = [len(s) for (k, s), sc in zip(operands, scal) if not sc]
+                    skipped_higher = any(sc and len(s) > max(kept, default=-1) for (k, s), sc in zip(operands, scal))
+                    (false_known if skipped_higher else false_other).append((op, operands, list(r), list(truth)))
         model_scal = [(k == "const" and int(np.prod(s, dtype=np.int64)) == 1) for k, s in operands]
         if scal != model_scal:
             scal_bad.append((op, operands, scal))
@@ -1030,7 +1053,18 @@ def tie_refresh(ctx, skip):
                     ok and not bad and not scal_bad, "tie",
                     log if not ok else (f"differ on {[(cases[i], str(exp[i])) for i in bad[:4]]}; is_scalar_const differs on {scal_bad[:3]}"
                                         if (bad or scal_bad) else "")), per_file=700)
-    del n_false
+    ctx.coverage["refresh_on_real_function"] = {"nodes_with_concrete_operands_judged_against_numpy": n_sem, "false_annotations": n_false,
+                                                "explained_by_skipped_one_element_constant_of_higher_rank": len(false_known)}
+    if false_known:
+        op, operands, r, truth = false_known[0]
+        ctx.violate("refresh:scalar-const-of-higher-rank:node",
+                    f"_refresh_elementwise_output_shape on {op}{[(k, list(s)) for k, s in operands]} writes {r}, numpy broadcast of the operand "
+                    f"shapes is {truth} ({len(false_known)} of {n_sem} small nodes with concrete operands; every one has a skipped one-element "
+                    f"constant whose rank exceeds all kept operands)", {"kind": "refresh_node", "op": op, "operands": [(k, list(s)) for k, s in operands]})
+    for op, operands, r, truth in false_other[:3]:
+        ctx.violate(f"refresh:false-annotation:{op}:{[(k, list(s)) for k, s in operands]}",
+                    f"_refresh_elementwise_output_shape writes {r}, numpy broadcast of the operand shapes is {truth}",
+                    {"kind": "refresh_node", "op": op, "operands": [(k, list(s)) for k, s in operands]})
     return len(items)
 
 
@@ -1084,13 +1118,13 @@ def coq_annot_consistent(ctx, terms):
             out.append(f"Definition m{off + i} : omodel := {t}.\n"
                        f"Eval vm_compute in (annot_consistent m{off + i}, annot_inconsistent_at m{off + i}, rule_applies m{off + i}, derived_count m{off + i}).\n")
         return "".join(out)
-    res = common.coq_eval_batches(ctx, "c08_models", header, terms, render, per_file=25)
+    res = common.coq_eval_batches(ctx, "c08_models", header, terms, render, per_file=PER_FILE_MODELS)
     out = {}
     ok_all = True
     pos = 0
     for ok, txt in res:
-        chunk = terms[pos:pos + 25]
-        pos += 25
+        chunk = terms[pos:pos + PER_FILE_MODELS]
+        pos += PER_FILE_MODELS
         blocks = re.findall(r"=\s*\((true|false),\s*(\[.*?\]|nil),\s*(\d+)(?:%nat)?,\s*(\d+)(?:%nat)?\)\s*:", txt.replace("\n", " "))
         if not ok or len(blocks) != len(chunk):
             ok_all = False
@@ -1158,7 +1192,7 @@ def run(ctx):
             ctx.assumptions.append("refresh witness through optimize_graph could not be replayed: " + traceback.format_exc()[-300:])
 
     # ---- (b) + (c) on real exports
-    n_reg = 70 if ctx.tier == "quick" else 500
+    n_reg = 60 if ctx.tier == "quick" else 500
     t0 = time.time()
     results = run_corpus(n_reg, ctx.seed, ctx.tier)
     t_corpus = time.time() - t0
@@ -1313,6 +1347,12 @@ def replay(path):
         w = refresh_witness_real()
         print(w or "the witness is annotated correctly now")
         return 1 if w else 0
+    if rep.get("kind") == "refresh_node":
+        operands = [(k, tuple(sh)) for k, sh in rep["operands"]]
+        rr, _ = real_refresh(rep["op"], operands, None)
+        truth = tuple(np.broadcast_shapes(*[sh for _k, sh in operands]))
+        print("refresh writes", rr, "numpy broadcast", truth)
+        return 1 if tuple(rr or ()) != truth else 0
     if rep.get("kind") == "export":
         case = rep["case"]
         import exports
